@@ -3,6 +3,7 @@ Correspondence: Model.GraphicsCommand (header_bytes, content_bytes, to_bytes) vs
 graphics_command.py, byte for byte, over the presence lattice of every command type.
 Search oracle: Spec.KittyProtoSpec.conforms (independent protocol parser + expected field table)
 applied to the implementation's bytes, on every case."""
+import copy
 import itertools
 import os
 
@@ -167,6 +168,7 @@ def run(ctx, model):
                 "case": {"tokens": toks, "escape": hexs(esc)},
             })
     builder_helpers(ctx, model, tup, cov)
+    via_send_command(ctx, model, tup, cov)
     if not ctx.quick():
         exhaustive_transmit(ctx, model, tup, cov)
     return cov
@@ -217,6 +219,95 @@ def builder_helpers(ctx, model, tup, cov):
         if a != b:
             ctx.violations.append({"signature": {"class": "payload-differs-from-what-the-helper-was-given", "helper": "set_placement"},
                                    "what": f"set_placement({kw}) serialises to {a!r}, the same fields given as placement= to {b!r}", "case": {"tokens": ["helper", "set_placement"], "escape": hexs(a)}})
+
+
+def via_send_command(ctx, model, tup, cov):
+    """The bytes that reach the command stream through GraphicsTerminal.send_command — the only way the library and the
+    CLI emit commands.  The terminal may rewrite a command only when asked to (force_placeholders / force_direct_transmission,
+    the per-call argument deciding when it is given, the terminal's attribute otherwise); what is written must decode to
+    exactly the fields of the (possibly rewritten) command: with both switches off, the fields the caller set."""
+    import io
+    import re
+    gc = tup.graphics_command
+    GT = tup.graphics_terminal.GraphicsTerminal
+    g = cmdcodec.Gen(ctx.rng, gc)
+    rng = ctx.rng
+    files = []
+    for i in range(3):
+        path = os.path.join(ctx.work, f"c06-file-{i}.bin")
+        content = rng.randbytes([0, 5, 300][i])
+        with open(path, "wb") as f:
+            f.write(content)
+        files.append((path, content))
+    checks = []
+    for n in range(ctx.pick(1500, 15000)):
+        c = g.random_command()
+        k = n % 4
+        if k == 0:
+            c = g.put([f for f in g.FIELDS_U if rng.random() < 0.5])
+        elif k == 1:
+            own = [f for f in g.FIELDS_T if rng.random() < 0.3 and f not in ("medium", "more")]
+            path, content = rng.choice(files)
+            c = g.transmit(own, [f for f in g.FIELDS_P if rng.random() < 0.3] if rng.random() < 0.5 else None, data=path.encode())
+            c.medium = rng.choice([gc.TransmissionMedium.FILE, gc.TransmissionMedium.TEMP_FILE, gc.TransmissionMedium.SHARED_MEMORY])
+        fp_term, fd_term = rng.random() < 0.5, rng.random() < 0.5
+        fp_call, fd_call = rng.choice([None, False, True]), rng.choice([None, False, True])
+        eff_fp = fp_term if fp_call is None else fp_call
+        eff_fd = fd_term if fd_call is None else fd_call
+        exp = copy.deepcopy(c)     # (send_command itself clones shallowly)
+        pid_random = False
+        if eff_fp:
+            if isinstance(exp, gc.TransmitCommand) and exp.placement is not None and not exp.placement.virtual:
+                exp.placement.virtual = True
+                pid_random = exp.placement.placement_id is None
+            if isinstance(exp, gc.PutCommand) and not exp.virtual:
+                exp.virtual = True
+                pid_random = exp.placement_id is None
+        if eff_fd and isinstance(exp, gc.TransmitCommand) and exp.medium in (gc.TransmissionMedium.FILE, gc.TransmissionMedium.TEMP_FILE):
+            name = exp.get_raw_payload()
+            if name:
+                byname = dict((p.encode(), b) for p, b in files)
+                if name not in byname:
+                    continue  # a random file name that does not exist: the rewrite raises, nothing to decode
+                exp = exp.clone_with(medium=gc.TransmissionMedium.DIRECT, data=byname[name])
+        if isinstance(exp, gc.TransmitCommand) and exp.medium in (None, gc.TransmissionMedium.DIRECT):
+            exp.more = bool(exp.more)   # an inline transmission goes through the chunker, which states m explicitly on the (only) chunk
+        out = common.RecStream()
+        term = GT(out_command=out, out_display=common.RecStream(), in_response=io.BytesIO(), in_userinput=io.BytesIO(), num_tmux_layers=0,
+                  force_placeholders=fp_term, force_direct_transmission=fd_term, max_command_size=10**6)
+        try:
+            term.send_command(c, force_placeholders=fp_call, force_direct_transmission=fd_call)
+        except Exception as e:  # printing the placeholder afterwards may fail on this stream-only terminal; the command was written before
+            cov.bump("via-send_command/raised-" + type(e).__name__)
+        if len(out.writes) != 1:
+            cov.bump("via-send_command/not-one-write")
+            continue
+        esc = out.writes[0]
+        if pid_random:
+            m = re.search(rb"[G,]p=(\d+)", esc.split(b";")[0])
+            if not m or not 1 <= int(m.group(1)) < 2**24:
+                ctx.violations.append({"signature": {"class": "escape-does-not-decode-to-fields", "command": "send_command"},
+                                       "what": "forced placeholder placement without a placement id in [1, 2^24)", "case": {"tokens": ["via", "send_command"], "escape": hexs(esc)}})
+                continue
+            if isinstance(exp, gc.PutCommand):
+                exp.placement_id = int(m.group(1))
+            else:
+                exp.placement.placement_id = int(m.group(1))
+        checks.append((cmdcodec.tokens(gc, exp), esc, (fp_term, fd_term, fp_call, fd_call), cmdcodec.tokens(gc, c)))
+    reps = model.batch([f"cmd.conforms {hexs(esc)} " + " ".join(toks) for toks, esc, _, _ in checks])
+    for (toks, esc, flags, orig), ok in zip(checks, reps):
+        fp_term, fd_term, fp_call, fd_call = flags
+        cov.add({"via": "send_command", "flags": flags, "tokens": orig}, klass=f"via-send_command/term={int(fp_term)}{int(fd_term)}/call={fp_call},{fd_call}".replace("None", "-").replace("True", "1").replace("False", "0"))
+        if ok != "1":
+            ctx.violations.append({
+                "signature": {"class": "escape-does-not-decode-to-fields", "command": "send_command"},
+                "what": f"send_command on a terminal with force_placeholders={fp_term}, force_direct_transmission={fd_term}, called with force_placeholders={fp_call}, "
+                        f"force_direct_transmission={fd_call}: the escape written does not decode to the fields of the command "
+                        f"({'as set by the caller' if toks == orig else 'after the rewrite that was asked for'})",
+                "case": {"tokens": toks, "escape": hexs(esc), "flags": list(flags), "caller_tokens": orig},
+            })
+            if sum(1 for v in ctx.violations if v["signature"].get("command") == "send_command") > 5:
+                break
 
 
 def replay(ctx, model, rec):
